@@ -283,6 +283,31 @@ func c04Run(c *fw.Ctx, i int) {
 	if i < c04NumSingle() {
 		kw := kws[i/4]
 		variant := i % 4
+		// first of all, sentences nobody has parsed yet are parsed by 8
+		// goroutines at once (the same DATE node objects in all of them): every
+		// answer must be what a lone caller gets from a fresh node
+		{
+			pr := fw.NewRand(fw.Mix(c.Seed, uint64(i), 404))
+			var texts []string
+			var nodes []*gedcom.DateNode
+			for k := 0; k < 120; k++ {
+				y := pr.Range(1, 9999)
+				mi := pr.Intn(len(c04MonthSpellings))
+				days := c04Days(y, c04MonthSpellings[mi].m, false, pr)
+				d := c04Sentence(kw, variant, []string{"Y", "MY", "DMY"}[k%3], mi, pr.Intn(4), days[pr.Intn(len(days))], y, pr.Bool(), pr)
+				texts = append(texts, d.text)
+				nodes = append(nodes, gedcom.NewDateNode(d.text))
+			}
+			desc := func(n *gedcom.DateNode, text string) string {
+				dr := gedcom.NewDateRangeWithString(text)
+				s, e := n.StartAndEndDates()
+				return fmt.Sprintf("range valid=%v %+v .. %+v | node valid=%v %+v .. %+v %q years=%v", dr.IsValid(), dr.StartDate(), dr.EndDate(), n.IsValid(), s, e, n.String(), n.Years())
+			}
+			c.Count("parallel-evaluations", int64(8*len(texts)))
+			if k, par, alone := fw.ParallelThenAlone(8, len(texts), func(k int) string { return desc(nodes[k], texts[k]) }, func(k int) string { return desc(gedcom.NewDateNode(texts[k]), texts[k]) }); k >= 0 {
+				c.Violation("parallel-evaluation-differs", fmt.Sprintf("%q parsed while 7 other goroutines parse too:\n%s\nalone:\n%s", texts[k], par, alone), map[string]string{"text": texts[k]})
+			}
+		}
 		for rep := 0; rep < reps; rep++ {
 			// shape Y
 			for _, y := range append(append([]int{}, c04Years...), r.Range(1, 9999), r.Range(1, 9999)) {
